@@ -594,7 +594,24 @@ func (e *evg) defnForm(d int) *nd {
 	savedLoops, savedSelf, savedAr, savedArg, savedCond := e.loops, e.selfN, e.selfAr, e.inArg, e.cond
 	defer func() { e.loops, e.selfN, e.selfAr, e.inArg, e.cond = savedLoops, savedSelf, savedAr, savedArg, savedCond }()
 	e.loops, e.inArg, e.cond = nil, false, 0
-	switch e.rnd(6) {
+	switch e.rnd(7) {
+	case 6: // self call in a position compiled inline but not a tail position: a cond test,
+		// a non-final and/or arm, a def value, a non-final statement (gen.Tail must be false there)
+		e.g.Count("defn rec inline non-tail")
+		name := "ev"
+		self := L(A(name), L(A("-"), A("a"), I(1)))
+		var step *nd
+		switch e.rnd(4) {
+		case 0:
+			step = L(A("cond"), self, A("false"), A("true"))
+		case 1:
+			step = L(A("and"), self, L(A("trace"), A("a")), A("false"))
+		case 2:
+			step = L(A("begin"), L(A("def"), A("p"), self), L(A("not"), A("p")))
+		default:
+			step = L(A("begin"), self, L(A("trace"), A("a")), L(A(">"), A("a"), I(1)))
+		}
+		return L(A("defn"), A(name), SQ(A("a")), L(A("cond"), L(A("<="), A("a"), I(0)), A("true"), step))
 	case 0: // non-tail recursion on a counter
 		e.g.Count("defn rec")
 		name := e.pickName(tF1)
@@ -683,6 +700,9 @@ func (e *evg) specialUse(defined map[string]bool, d int) *nd {
 	}
 	if defined["lz"] {
 		c = append(c, L(A("lz"), L(A("trace"), e.arg(tInt, 1)), A([]string{"true", "false"}[e.rnd(2)])))
+	}
+	if defined["ev"] {
+		c = append(c, L(A("ev"), I(int64(e.rnd(4)))), L(A("trace"), L(A("cond"), L(A("ev"), I(int64(1+e.rnd(3)))), I(1), I(0))))
 	}
 	if defined["mk"] {
 		c = append(c, L(L(A("mk"), e.arg(tInt, 1))))
@@ -793,7 +813,7 @@ func evalGen(g *Gen) {
 	}
 	nWT, nMal := 1300, 600
 	if g.Thorough() {
-		nWT, nMal = 60000, 25000
+		nWT, nMal = 20000, 8000
 	}
 	for i := 0; i < nWT+nMal; i++ {
 		e := &evg{g: g}
@@ -888,6 +908,9 @@ var evalFixed = []string{
 	"(or (trace 0) (trace nil) (trace 3) (trace 4))",
 	"(def x 1) (def x \"s\")",
 	"(apply + [1 2 3])",
+	"(defn ev [a] (cond (<= a 0) true (cond (ev (- a 1)) false true))) (ev 3) (ev 4)",
+	"(defn ev [a] (cond (<= a 0) true (and (ev (- a 1)) (trace a) false))) (ev 2)",
+	"(defn ev [a] (cond (<= a 0) true (begin (def p (ev (- a 1))) (not p)))) (ev 3)",
 	"(map (fn [a] (* a a)) (list 1 2 3))",
 }
 
